@@ -87,9 +87,12 @@ def check_case(case):
             'name': 'cons'}
   cons = G.build(cshape, gin)
   prods = {}
+  gen_prod = case.get('generator_producer')
+
   def build_producer(name, api):
     return G.build({'pos': [], 'dflt': ['v'], 'varargs': False, 'kwonly': [], 'kwdflt': [],
                     'varkw': False, 'kind': 'function', 'api': api, 'name': name,
+                    'generator': name == gen_prod,
                     'module': 'c04producers', 'mutate_scope': bool(case.get('mutate_scope'))}, gin)
 
   for name, api in zip(PRODUCERS, case['producer_apis']):
@@ -120,12 +123,33 @@ def check_case(case):
   def total_log():
     return sum(len(p.log) for p in prods.values())
 
+  def drive(obj, name, where):
+    """A generator-function producer delivers a generator: iterate it, as a consumer would. While
+    it is suspended, and after it is exhausted, this thread's scope is what it was."""
+    if name != gen_prod:
+      return obj
+    import inspect  # pylint: disable=g-import-not-at-top
+    require(inspect.isgenerator(obj), 'generator-configurable-did-not-return-a-generator',
+            lambda: f'{where}: {obj!r}')
+    scope_now = gin.current_scope()
+    first = next(obj)
+    require(gin.current_scope() == scope_now, 'scope-changed-while-generator-suspended',
+            lambda: f'{where}: {gin.current_scope()} vs {scope_now}')
+    rest = list(obj)
+    require(rest == [] and gin.current_scope() == scope_now, 'scope-changed-after-generator',
+            lambda: f'{where}: rest={rest} scope={gin.current_scope()} vs {scope_now}')
+    labels.add('generator-producer-iterated')
+    return first
+
   def produced_ok(obj, ref, floor, where):
     _, rscope, name, _ = ref
+    obj = drive(obj, name, where)
     require(isinstance(obj, dict) and 'named' in obj and 'n' in obj, 'not-a-produced-object',
             lambda: f'{where}: {obj!r}')
     exp_scope = rscope if rscope else '/'.join(ambient)
-    require(obj['scope'] == exp_scope, 'reference-scope',
+    # (the body of a generator function runs when it is iterated, i.e. here, under this scope;
+    # what it was *given* is decided by the scope of the call, checked below)
+    require(name == gen_prod or obj['scope'] == exp_scope, 'reference-scope',
             lambda: f'{where}: {render(ref)} ran under {obj["scope"]!r}, expected {exp_scope!r} '
                     f'(ambient {ambient})')
     who = prods[name]
@@ -245,7 +269,7 @@ def check_case(case):
       rec = cons.call(args, kwargs)
       grew = total_log() - before_total
       expected_runs = sum(1 for p in by_gin if p in bound
-                          for leaf, _ in leaves(bound[p]) if leaf[3])
+                          for leaf, _ in leaves(bound[p]) if leaf[3] and leaf[2] != gen_prod)
       overridden_evaluated = [p for p in PARAMS if p not in by_gin and p in bound and
                               any(leaf[3] for leaf, _ in leaves(bound[p]))]
       for p in overridden_evaluated:
@@ -338,6 +362,7 @@ def strategy(draw):
                   'mutate': draw(st.booleans()) or draw(st.booleans())})
   return {
       'skip_unknown': draw(st.sampled_from([0, 0, 1, 2, 3])),
+      'generator_producer': draw(st.sampled_from([None, None, None] + PRODUCERS)),
       'consumer_kind': draw(st.sampled_from(['function', 'function', 'class_init'])),
       'consumer_api': draw(st.sampled_from(['configurable', 'register', 'external'])),
       'producer_apis': [draw(st.sampled_from(['configurable', 'register', 'external']))
